@@ -526,6 +526,16 @@ def two_chain_histories(n, cross):
                                 yield tuple(tuple(sorted(ps)) for ps in par2)
 
 
+def plateau_clocks(n, max_levels):
+    """Every non-decreasing map of the node numbering onto 0..L-1, L <= max_levels (compositions of n into
+    <= max_levels parts): monotone clocks in which runs of consecutive commits share one timestamp."""
+    out = []
+    for L in range(1, max_levels + 1):
+        for cuts in itertools.combinations(range(1, n), L - 1):
+            out.append(tuple(sum(1 for c in cuts if c <= i) for i in range(n)))
+    return out
+
+
 def deep_walk_queries(dag, levels):
     n = len(dag)
     ch = E.children(dag)
@@ -945,12 +955,15 @@ def run(ctx):
         gwide = False
     dn, dcross = (7, False) if q else (8, True)
     deep = []
+    plateaus = plateau_clocks(dn, 3)
     for d in two_chain_histories(dn, dcross):
         deep.append((d, tuple(range(dn))))  # strictly increasing clock
         deep.append((d, tuple(i // 2 for i in range(dn))))  # consecutive commits share a second
+        for r in plateaus:  # long runs of commits within one second (ties at a since/until boundary)
+            deep.append((d, r))
     deep = ctx.order(sorted(set(deep)))
-    label = "deep: two-chain histories with %d commits (every fork point, every interleaving%s) x {distinct, pairwise-tied} monotone clocks" % (
-        dn, ", <=1 cross merge" if dcross else "")
+    label = ("deep: two-chain histories with %d commits (every fork point, every interleaving%s) x {distinct, pairwise-tied, "
+             "every plateau clock with <=3 levels} monotone clocks" % (dn, ", <=1 cross merge" if dcross else ""))
     phases.append((label, [("deep", part, None) for part in split(deep, max(J * 3, len(deep) // 50))]))
     bounds[label] = {"timed_graphs": len(deep), "walks": "tips x (none|every single exclude) x date/topo; since/until at every level"}
     gitems = ctx.order(gitset)
